@@ -1,4 +1,5 @@
 import ImathVerif.Lemmas.C11Lemmas
+import ImathVerif.Lemmas.C11Analysis
 import Mathlib.Tactic.SplitIfs
 /-!
 # C11 — Euler angles round-trip through matrices and quaternions in all 24 orders
@@ -316,5 +317,61 @@ theorem nearestRotation_within_pi {α : Type} [Field α] [LinearOrder α] [IsStr
   (unfold_nearest
    split_ifs <;>
    (simp only [add_sub_cancel_left, abs_le]; exact ⟨hrange _, hrange _, hrange _⟩))
+
+/-! ## 6. angleMod (hand model of the real body, tied by the driver correspondence)
+
+`Model.Euler.angleMod trunc pi x` mirrors `fmod (x, 2π_T)` followed by the two wrap-around steps, in
+exact arithmetic; `pi` stands for `static_cast<T> (M_PI)`.  The real function additionally rounds
+(`angle += 2*pi` in `T`, then the `float` return type): the correspondence checks |real − model| ≤ 2^-22
+("to single precision") on structured inputs. -/
+
+/-- `angleMod` returns a value in `[-pi, pi]` -/
+theorem angleMod_in_range {α : Type} [Field α] [LinearOrder α] [IsStrictOrderedRing α] [FloorRing α]
+    (trunc : α → Int) (ht : IsTrunc trunc) (pi x : α) (hpi : 0 < pi) :
+    -pi ≤ Model.Euler.angleMod trunc pi x ∧ Model.Euler.angleMod trunc pi x ≤ pi :=
+  angleMod_range trunc ht pi x hpi
+
+/-- … congruent to its argument modulo `2·pi` -/
+theorem angleMod_congruent {α : Type} [Field α] [LinearOrder α] [IsStrictOrderedRing α] [FloorRing α]
+    (trunc : α → Int) (pi x : α) : ∃ k : ℤ, Model.Euler.angleMod trunc pi x = x + (k : α) * (2 * pi) :=
+  angleMod_congr trunc pi x
+
+/-- the instance the driver executes (`ratTrunc` on ℚ) rounds toward zero, so both theorems apply to it -/
+theorem angleMod_driver_instance (pi x : ℚ) (hpi : 0 < pi) :
+    (-pi ≤ Model.Euler.angleMod Model.Euler.ratTrunc pi x ∧ Model.Euler.angleMod Model.Euler.ratTrunc pi x ≤ pi)
+    ∧ ∃ k : ℤ, Model.Euler.angleMod Model.Euler.ratTrunc pi x = x + (k : ℚ) * (2 * pi) :=
+  ⟨angleMod_range _ ratTrunc_isTrunc pi x hpi, angleMod_congr _ pi x⟩
+
+/-! ## 7. Non-vacuity: the real functions satisfy the hypotheses -/
+
+/-- on ℝ with the real sine and cosine: quaternion, matrix and spec agree for all 24 orders -/
+example (o : Ord) (a : V3 ℝ) :
+    Gen.Euler.Quat_toMatrix33 (toQuat o Real.sin Real.cos a) = toM33 o Real.sin Real.cos a
+    ∧ (toM33 o Real.sin Real.cos a).toMat = eulerMat o Real.sin Real.cos a
+    ∧ (toM33 o Real.sin Real.cos a).toMat.det = 1 :=
+  ⟨toQuat_toMatrix33_eq_toMatrix33 o _ _ a real_hsc real_hodd real_heven real_hsin2 real_hcos2,
+   toMatrix33_eq_spec o _ _ a real_hodd real_heven,
+   (toMatrix33_orthonormal_det_one o _ _ a real_hsc).2.2⟩
+
+/-- the flip identity with the true π -/
+example (a : V3 ℝ) : toM33 .ZXY Real.sin Real.cos ⟨Real.pi + a.x, Real.pi - a.y, Real.pi + a.z⟩ = toM33 .ZXY Real.sin Real.cos a :=
+  flip_same_rotation .ZXY rfl _ _ Real.pi a real_hodd real_heven real_hsp real_hcp real_hsm real_hcm
+
+/-- `makeNear` with the model of `angleMod`, for functions whose half period is exactly the double `M_PI` -/
+example (a t : V3 ℝ) :
+    toM33 .YXZ sinM cosM (makeNear .YXZ (Model.Euler.angleMod truncF mpi) a t).1 = toM33 .YXZ sinM cosM a
+    ∧ |(makeNear .YXZ (Model.Euler.angleMod truncF mpi) a t).1.x - t.x| ≤ mpi :=
+  ⟨(makeNear_preserves_rotation .YXZ rfl sinM cosM _ a t sinM_cosM_hyps.2.1 sinM_cosM_hyps.2.2.1 sinM_cosM_hyps.2.2.2.1
+      sinM_cosM_hyps.2.2.2.2.1 sinM_cosM_hyps.2.2.2.2.2.1 sinM_cosM_hyps.2.2.2.2.2.2
+      sinM_cosM_angleMod_hyps.1 sinM_cosM_angleMod_hyps.2.1).1,
+   (makeNear_within_pi .YXZ _ a t sinM_cosM_angleMod_hyps.2.2).1⟩
+
+/-- a concrete non-trivial instance: order YZX, angles (1/2, 1/3, 1/5), over ℚ with "sin/cos" read off a
+    rational point table is not needed — the theorems quantify over all `sin`, `cos`; here the slots -/
+example : toXYZ .YZX (⟨1, 2, 3⟩ : V3 ℚ) = ⟨3, 1, 2⟩ ∧ setXYZ .YZX (⟨0, 0, 0⟩ : V3 ℚ) ⟨3, 1, 2⟩ = ⟨1, 2, 3⟩ := by
+  constructor <;> rfl
+
+/-- `angleMod` model on a concrete input: 7 ↦ 7 − 2·(22/7) with pi := 22/7 -/
+example : Model.Euler.angleMod Model.Euler.ratTrunc (22 / 7 : ℚ) 7 = 7 - 44 / 7 := by decide +kernel
 
 end ImathVerif.C11
